@@ -672,6 +672,19 @@ Fixpoint try_groups (gs : list (list term)) (wt res : term) (s : bst) (k : kont)
       end
   end.
 
+(* The witness variables of every solution are renamed to common fresh variables base, base+1, .. (first-occurrence order),
+   throughout the pair: solutions whose witnesses are variants then have identical witnesses (ISO 8.10.2: they are unified),
+   and the standard order compares witnesses up to this renaming (as the implementation does before its keysort). *)
+Fixpoint rename_from (vs : list N) (base : N) (t : term) : term :=
+  match t with
+  | Var v => if memN v vs then Var (base + index_of v vs 0) else t
+  | Cmp f args => Cmp f (map (rename_from vs base) args)
+  | _ => t
+  end.
+Definition share_witness (base : N) (p : term) : term := rename_from (tvars (pair_key p) []) base p.
+Definition witness_width (l : list term) : N :=
+  fold_right (fun p m => N.max (N.of_nat (List.length (tvars (pair_key p) []))) m) 0 l.
+
 Definition diffN (a b : list N) : list N := filter (fun x => negb (memN x b)) a.
 
 (* goals whose execution leaves no choice point (used only by setup_call_cleanup) *)
@@ -775,9 +788,10 @@ Definition do_bagof (ex : exec_t) (set : bool) (t g1 l : term) (s : bst) (k : ko
   let wt := Cmp n_w (map Var wvars) in
   match collect ex (Cmp n_minus [wt; t']) g0 s with
   | (anss, rest, SNorm) =>
-      let (cs, c') := copies (ctr s) anss in
+      let (cs0, c') := copies (ctr s) anss in
+      let cs := map (share_witness c') cs0 in
       let sorted := if set then sort_dedup cs else sort_by pair_key cs in
-      pre rest (try_groups (groups (List.length sorted) sorted) wt l (mkst (sub s) c') k)
+      pre rest (try_groups (groups (List.length sorted) sorted) wt l (mkst (sub s) (c' + witness_width cs0)) k)
   | (_, rest, x) => (rest, x)
   end.
 
